@@ -100,6 +100,19 @@ impl Matcher {
         &mut self,
         transactions: Vec<GbpTransaction>,
     ) -> Result<(Vec<MatchResult>, HashMap<String, Section104Holding>), CgtError> {
+        // A split ratio must be positive: a zero ratio would wipe out the holding and later
+        // divide by zero when a 30-day match is rescaled across it.
+        for tx in &transactions {
+            if let Operation::Split { ratio } | Operation::Unsplit { ratio } = &tx.operation
+                && *ratio <= Decimal::ZERO
+            {
+                return Err(CgtError::InvalidTransaction(format!(
+                    "SPLIT/UNSPLIT {} on {}: ratio must be positive (got {})",
+                    tx.ticker, tx.date, ratio
+                )));
+            }
+        }
+
         // Preprocess: sort and merge same-day transactions
         let transactions = self.preprocess(transactions);
 
